@@ -26,7 +26,8 @@ Inductive op :=
 | DCmtf (shape3 : list nat) (m : nat) (spec : rspec)
 (* control flow of the CP drivers w.r.t. normalisation; the decisions are the implementation's (answer tape) *)
 | DNorm (d : driver) (nf tol_set : bool) (ik : init_kind) (n_modes : nat) (fixed : list nat) (n_iter : nat)
-        (decisions : list (bool * bool)) (obs_sweeps : bool).
+        (decisions : list (bool * bool)) (obs_sweeps : bool)
+| DNorm2 (d : driver2) (nf tol_set : bool) (n_iter : nat) (decisions : list bool).
 
 Definition is_frac (s : rspec) : bool := match s with RFrac _ => true | _ => false end.
 Definition frac_of (s : rspec) : Q := match s with RFrac q => q | _ => 0%Q end.
@@ -70,6 +71,9 @@ Definition run (o : op) : res (list (list nat)) :=
       let m := length (modes_list d n_modes fixed) in
       Ok [[if obs_sweeps then (if m =? 0 then 0 else length (updates t) / m) else 0];
           [if ends_normalised t then 1 else 0]; [if any_normalise t then 1 else 0]]
+  | DNorm2 d nf tol_set n decisions =>
+      let t := trace_run2 d nf tol_set n decisions in
+      Ok [[length (updates t)]; [if ends_normalised t then 1 else 0]; [if any_normalise t then 1 else 0]]
   end.
 
 Fixpoint shapes_eqb (a b : list (list nat)) : bool :=
